@@ -27,7 +27,7 @@ TZS = [None, None, "UTC", "Europe/London", "America/St_Johns", "+03:00", "-09:30
 ROWS_QUICK = [0, 1, 2, 3, 5, 7, 8, 9, 15, 16, 17, 31, 33, 63, 64, 65, 504, 505, 513]
 ROWS_THOROUGH = ROWS_QUICK + [127, 128, 129, 255, 257, 1000, 1024, 8191, 8192, 8193]
 
-ALL_KINDS = ["bool", "int", "float", "text", "bytes", "json", "datetime", "timedelta", "category", "nullable"]
+ALL_KINDS = ["bool", "int", "float", "text", "bytes", "json", "datetime", "timedelta", "category", "nullable", "pyobj"]
 
 
 def int_range(sub):
@@ -183,6 +183,17 @@ def column(draw, name, kinds=ALL_KINDS, thorough=False, nulls=True, subs=None, l
         col["cats"] = cats
         col["ordered"] = like.get("ordered", False) if like else draw(st.booleans())
         col["null"] = draw(null_spec(nulls))
+    elif kind == "pyobj":
+        # object-dtype column of Python ints / bools / floats (stored as INT64 / BOOLEAN / DOUBLE) with None for missing
+        sub = draw(st.sampled_from(subs or ["int", "int", "bool", "float"]))
+        col["sub"] = sub
+        if sub == "bool":
+            col["pool"] = draw(st.lists(st.booleans(), min_size=1, max_size=3))
+        elif sub == "int":
+            col["pool"] = draw(st.lists(ints_for("int64"), min_size=1, max_size=12))
+        else:
+            col["pool"] = draw(st.lists(st.floats(allow_nan=False, width=64), min_size=1, max_size=12))
+        col["null"] = draw(null_spec(nulls))
     elif kind == "nullable":
         sub = draw(st.sampled_from(subs or NULLABLE_SUBS))
         col["sub"] = sub
@@ -278,6 +289,8 @@ def options(draw, fr, schemes=("simple", "simple", "hive", "drill"), thorough=Fa
         for c in cols + ([fr["index"]] if fr["index"] else []):
             if c["kind"] in ("text", "bytes", "json") and c.get("sub") != "str" and draw(st.booleans()):
                 oe[c["name"] or "index"] = {"text": "utf8", "bytes": "bytes", "json": "json"}[c["kind"]]
+            if c["kind"] == "pyobj" and draw(st.booleans()):
+                oe[c["name"] or "index"] = c["sub"]
         for c in allnames:
             oe.setdefault(c, "infer")
     o["object_encoding"] = oe
@@ -313,16 +326,19 @@ def compatible_frame(draw, fr, thorough=False, rows=None, same_categories=False)
     return {"n": n, "cols": cols, "index": idx}
 
 
+OBJ_KINDS = ("text", "bytes", "json", "pyobj")
+
+
 def pin_object_schema(fr):
     """The stored type of an object column is inferred from its first non-null values; a
     create frame whose text/bytes/json column is entirely null would pin a different schema
     than later batches need.  Make sure such columns hold at least one value."""
     for c in fr["cols"] + ([fr["index"]] if fr.get("index") else []):
-        if c["kind"] in ("text", "bytes", "json") and (c.get("null") or {}).get("pat") in ("all",):
+        if c["kind"] in OBJ_KINDS and (c.get("null") or {}).get("pat") in ("all",):
             c["null"] = {"pat": "last_only", "mask": []}
-        if c["kind"] in ("text", "bytes", "json") and (c.get("null") or {}).get("pat") in ("first_only", "last_only", "all_but_one") and fr["n"] == 1:
+        if c["kind"] in OBJ_KINDS and (c.get("null") or {}).get("pat") in ("first_only", "last_only", "all_but_one") and fr["n"] == 1:
             c["null"] = {"pat": "none", "mask": []}
-        if c["kind"] in ("text", "bytes", "json") and (c.get("null") or {}).get("pat") == "some":
+        if c["kind"] in OBJ_KINDS and (c.get("null") or {}).get("pat") == "some":
             m = c["null"]["mask"]
             if m and all(m[i % len(m)] for i in range(max(1, fr["n"]))):
                 c["null"] = {"pat": "none", "mask": []}
